@@ -39,7 +39,7 @@ var c17ErrVal = &errPayload{code: 7}
 func c17Payloads() []any {
 	return []any{nil, 7, "s", c17Ptr, c17Map, c17Slice, stT{A: 1, B: []string{"b"}},
 		(*payloadT)(nil), map[string]any(nil), []int(nil), 0, "", false,
-		c17ErrVal} // a value whose type implements error is still a value when returned with a nil error // typed nils and zero values keep their dynamic type
+		c17ErrVal, flyt.NewResult("a Result that is the payload itself")} // a value whose type implements error is still a value when returned with a nil error // typed nils and zero values keep their dynamic type
 }
 
 func styleScenario(prepR, execR, postR, builder, inFlow bool) Scenario {
@@ -47,7 +47,10 @@ func styleScenario(prepR, execR, postR, builder, inFlow bool) Scenario {
 	var label string
 	body := func() {
 		ps := c17Payloads()
-		P := ps[core.Choose(len(ps))]
+		// (the last payload, a non-error Result used as a value, is offered to exec only: a prep
+		// value that is itself a Result is by design taken as "already wrapped" — the batch path
+		// hands items to Exec that way — and the property's list of payload kinds does not have it)
+		P := ps[core.Choose(len(ps)-1)]
 		// exec outcome: a payload, or (Result style only) an error Result
 		nE := len(ps)
 		if execR {
@@ -66,7 +69,7 @@ func styleScenario(prepR, execR, postR, builder, inFlow bool) Scenario {
 			if isErr {
 				core.Problem("exec received an error Result as the prep value")
 			}
-			if _, nested := x.(flyt.Result); nested {
+			if _, nested := x.(flyt.Result); nested && !isResult(P) {
 				core.Problem("exec received a Result wrapped in a Result")
 			}
 			if !sameValue(x, P) {
@@ -104,7 +107,7 @@ func styleScenario(prepR, execR, postR, builder, inFlow bool) Scenario {
 			if ee.IsError() {
 				core.Problem("post (Result style) received an error Result (%v) although exec returned a value", ee.Error())
 			}
-			if _, nested := ee.Value().(flyt.Result); nested {
+			if _, nested := ee.Value().(flyt.Result); nested && !isResult(E) {
 				core.Problem("post (Result style) received a Result wrapped in a Result")
 			}
 			if !sameValue(ee.Value(), E) {
@@ -127,7 +130,7 @@ func styleScenario(prepR, execR, postR, builder, inFlow bool) Scenario {
 				}
 				return "done", nil
 			}
-			if _, nested := ee.(flyt.Result); nested {
+			if _, nested := ee.(flyt.Result); nested && !isResult(E) {
 				core.Problem("post (Any style) received a Result instead of the plain exec value")
 			}
 			if !sameValue(ee, E) {
@@ -205,6 +208,9 @@ func styleScenario(prepR, execR, postR, builder, inFlow bool) Scenario {
 	}
 	return Scenario{Name: name, Body: body, Check: stdCheck(func() string { return label })}
 }
+
+// isResult: the payload itself is a Result value (then receiving a Result is receiving the payload)
+func isResult(v any) bool { _, ok := v.(flyt.Result); return ok }
 
 func rs(r bool) string {
 	if r {
